@@ -41,12 +41,12 @@ CONSTANTS Cases,              \* set of abstract topologies explored
           DevTableMacrosKept, \* proposed finding: macros inside type-table entries are not substituted
           DevDefineLazyCond,  \* a #define inside a block is recorded iff the block's condition holds when re-evaluated at the #define line
           DevDefineBlockDropped, \* a #define inside any #ifdef / #ifndef block is ignored
-          DevDefineInactiveKept  \* reported finding (what the tree does): a #define is recorded whatever branch it sits in
+          DevDefineInactiveKept  \* F37 (repaired): a #define is recorded whatever branch it sits in
 
 KindSeq == <<"bonds", "angles", "constraints", "dihedrals", "pairs">>
 KindSet == {"bonds", "angles", "constraints", "dihedrals", "pairs"}
-NoDev == [pairs |-> FALSE, tbl |-> FALSE]
-CodeDev == [pairs |-> DevPairsUntyped, tbl |-> DevTableMacrosKept]
+NoDev == [pairs |-> FALSE, tbl |-> FALSE, kept |-> FALSE]
+CodeDev == [pairs |-> DevPairsUntyped, tbl |-> DevTableMacrosKept, kept |-> DevDefineInactiveKept]
 
 (* ------------------------------------------------------------------ *)
 (* P-layer                                                            *)
@@ -88,11 +88,14 @@ WellFormedPP(L) == /\ \A i \in 1..Len(L) : /\ L[i].op \in {"define", "ifdef", "i
                                            /\ (L[i].op = "else" => Opener(L, i) # 0 /\ ~InElse(L, i))
                                            /\ (L[i].op = "endif" => Opener(L, i) # 0)
                    /\ Opener(L, Len(L) + 1) = 0
-\* domain (reported finding): the reader records a #define of a branch that is not selected; such inputs are not judged
+\* every #define sits outside the blocks or in a selected branch (no longer a domain restriction: F37 is repaired)
 NoSkippedDefine(L) == \A i \in 1..Len(L) : L[i].op = "define" => Processed(L, i)
+\* the repaired defect F37 (diagnostic / sensitivity only): every #define line counted, whatever branch it sits in
+AllDefs(L) == LET S == SetToSortSeq({i \in 1..Len(L) : L[i].op = "define"}, <)
+              IN [x \in 1..Len(S) |-> [name |-> L[S[x]].name, toks |-> L[S[x]].toks]]
 OplsTags == {"_FF_OPLS", "_FF_OPLS_AA"}
 \* the topology after cpp: defs = the macros in force [name, toks]; opls = an OPLS tag is defined
-Norm(t) == LET eff == EffDefs(t.defs) IN
+NormD(t, d) == LET eff == IF d.kept THEN AllDefs(t.defs) ELSE EffDefs(t.defs) IN
              [t EXCEPT !.defs = eff, !.opls = t.opls \/ \E x \in 1..Len(eff) : eff[x].name \in OplsTags]
 
 (* ---- resolution on the topology after cpp (top.defs = macros in force) ---- *)
@@ -130,7 +133,8 @@ ExpectedN(top, d) ==
            res   == [m \in 1..Len(top.mols) |-> ResolvedMol(top, top.mols[m], d)]
        IN [err |-> FALSE, inst |-> [j \in 1..Len(names) |-> [name |-> names[j], inter |-> res[MolIdx(top, names[j])]]]]
 \* the declared result of a topology as written: cpp first, then the resolution
-Expected(top, d) == ExpectedN(Norm(top), d)
+Norm(t) == NormD(t, NoDev)
+Expected(top, d) == ExpectedN(NormD(top, d), d)
 
 \* results are compared as multisets of interactions per kind and instance
 BagOf(s) == [x \in ToSet(s) |-> Cardinality({i \in 1..Len(s) : s[i] = x})]
@@ -142,7 +146,7 @@ SameResult(r1, r2) == /\ r1.err = r2.err
 (* the stated domain: no ties (two different keys of the same specificity matching one interaction; a repeated key *)
 (* outside dihedral tables), a macro redefined only with the same tokens, a tag (macro without tokens) never used as a *)
 (* parameter, unique molecule names, a pair type for every pair written without parameters; the preprocessor lines are *)
-(* balanced, not nested, and (reported finding) no #define sits in a branch that is not selected                       *)
+(* balanced and not nested (a #define in a branch that is not selected is in the domain since F37 is repaired)          *)
 ParToks(top) == UNION ({ToSet(it.par) : it \in UNION {ToSet(top.mols[m].inter[kind]) : m \in 1..Len(top.mols), kind \in KindSet}} \cup
                        {ToSet(e.par) : e \in UNION {ToSet(top.tables[kind]) : kind \in KindSet}})
 NoTie(kind, tbl, ts) == LET B == Best(kind, tbl, ts) IN
@@ -156,9 +160,9 @@ InDomainN(top) ==
   /\ \A m \in 1..Len(top.mols) : \A kind \in KindSet : \A i \in 1..Len(top.mols[m].inter[kind]) :
         Untyped(top, top.mols[m].inter[kind][i]) =>
            NoTie(kind, top.tables[kind], TypeSeq(top, top.mols[m], top.mols[m].inter[kind][i].atoms))
-InDomain(top) == WellFormedPP(top.defs) /\ NoSkippedDefine(top.defs) /\ InDomainN(Norm(top))
-\* the domain once the reported finding is repaired: a #define in a branch that is not selected is allowed (and has no effect)
-InDomainWide(top) == WellFormedPP(top.defs) /\ InDomainN(Norm(top))
+\* a #define in a branch that is not selected is allowed (and has no effect)
+InDomain(top) == WellFormedPP(top.defs) /\ InDomainN(Norm(top))
+InDomainWide(top) == InDomain(top)
 
 (* ------------------------------------------------------------------ *)
 (* I-layer                                                            *)
@@ -233,8 +237,8 @@ PragmaElse == /\ pc = "parse" /\ Ln.op = "else"
 PragmaEndif == /\ pc = "parse" /\ Ln.op = "endif"
                /\ meta' = NoMeta /\ iact' = TRUE
                /\ UNCHANGED idefs /\ AfterLine
-\* parse_define.  Intended reader: a #define is recorded iff the branch being read is the selected one.  The tree records every
-\* #define line (DevDefineInactiveKept, reported finding): the same on the stated domain (NoSkippedDefine), refuted outside it
+\* parse_define: a #define is recorded iff the branch being read is the selected one (branch_selected).  DevDefineInactiveKept:
+\* the repaired defect F37, every #define line recorded
 Recorded == IF DevDefineLazyCond THEN MetaHoldsNow
             ELSE IF DevDefineBlockDropped THEN meta.cond = "none"
             ELSE IF DevDefineInactiveKept THEN TRUE
